@@ -5,9 +5,9 @@ CONTROLS = [
     dict(name="ground_truth skips files that are the truth file (seed C12_a shape)",
          edits=[(F, "                filenames,\n            )\n        )\n\n    return effect", "                filter(lambda fn: path.realpath(fn) != path.realpath(truth_file), filenames),\n            )\n        )\n\n    return effect")],
          expect=r"ground_truth/every-listed-file"),
-    dict(name="in-place rewrite no longer guarded by cmp_ast",
-         edits=[(F, "    if not cmp_ast(original_node, replacement_node):", "    if True:")],
-         expect=r"_conform_filename/rewrite-only-when-different"),
+    # removed: "in-place rewrite no longer guarded by cmp_ast" (`if True:`).  Observably equivalent on the pinned tree: the inner
+    # `if rewrite_at_query.replaced` still guards the write, function / argparse targets are never `replaced`, and class files
+    # are rewritten anyway (known finding).  Under the confirm-by-replay policy the failed shape rule is undecided (exit 2).
     dict(name="file rewritten even when nothing was replaced",
          edits=[(F, "        if rewrite_at_query.replaced:\n            cdd.shared.emit.file.file(parsed_ast, filename, mode=\"wt\", skip_black=False)", "        cdd.shared.emit.file.file(parsed_ast, filename, mode=\"wt\", skip_black=False)")],
          expect=r"_conform_filename/rewrite-only-when-different"),
